@@ -96,6 +96,9 @@ func (g *gateBucket) NewRangeReaderEtag(ctx context.Context, key string, off, l 
 	if etag != "" && etag != o.tag {
 		return nil, "", 412, &pmtiles.RefreshRequiredError{StatusCode: 412}
 	}
+	if off < 0 || l < 0 || off+l < off { // a corrupted header can ask for anything: the local backend answers such reads with an error
+		return nil, "", 500, fmt.Errorf("invalid range")
+	}
 	if off >= int64(len(o.data)) {
 		return nil, "", 416, &pmtiles.RefreshRequiredError{StatusCode: 416}
 	}
@@ -105,8 +108,14 @@ func (g *gateBucket) NewRangeReaderEtag(ctx context.Context, key string, off, l 
 	}
 	body := o.data[off:end]
 	switch {
-	case outcome == "short":
-		body = body[:len(body)/2]
+	case outcome == "short": // a truncation that certainly breaks the object: less than a header / half a directory
+		if off == 0 && l == 16384 {
+			if len(body) > 100 {
+				body = body[:100]
+			}
+		} else {
+			body = body[:len(body)/2]
+		}
 	case outcome == "empty":
 		body = nil
 	case outcome == "garbage":
@@ -285,6 +294,7 @@ type srvRun struct {
 	trace    []string
 	traceMu  sync.Mutex
 	lastSize int
+	cacheMB  int
 	limit    int
 	sizeViol bool
 	viol     []string
@@ -309,6 +319,7 @@ func newSrvRun(cacheMB int) *srvRun {
 		sr.traceMu.Unlock()
 	})
 	srv, _ := pmtiles.NewServerWithBucket(sr.gate, "", quietLogger, cacheMB, "http://pub")
+	sr.cacheMB = cacheMB
 	sr.srv = srv
 	srv.Start()
 	return sr
